@@ -138,6 +138,15 @@ def run(tier):
                 bad += 1; ck.violation("wrong-code:" + kind, "%s rejected with %s (no E5xx / E33x)" % (cid, codes), src)
             continue
         m = model.get(cid, "MODEL-MISSING")
+        spec = None
+        if " spec=" in m:
+            m, sp = m.split(" spec="); spec = sp == "ok"
+        if spec is not None and spec != accepted:
+            # the declarative classes of the specification (not the regenerated tables) disagree with the compiler
+            bad += 1
+            ck.violation(("ill-typed-accepted:" if accepted else "well-typed-rejected:") + kind + ":spec",
+                         "%s is %s by the compiler, but the operator classes of the specification (Proofs/ResolveProofs.v binop_class / unop_class / cmpop_class / conversion_spec) say it must be %s" % (cid, "accepted" if accepted else "rejected " + str(codes), "rejected" if accepted else "accepted"), src)
+            continue
         m_ok = m == "ok"
         mcodes = [] if m_ok else m[len("err "):].strip("[]").split(",")
         stats[kind + (":accepted" if accepted else ":rejected")] += 1
